@@ -107,6 +107,8 @@ def init_security(config: ConfigParser) -> None:
     if config.getboolean("pygopherd", "usechroot"):
         chroot_user = config.get("pygopherd", "root")
         os.chroot(chroot_user)
+        # Do not keep a working directory that is outside of the new root.
+        os.chdir("/")
         logger.log(f"Chrooted to {chroot_user}")
         config.set("pygopherd", "root", "/")
 
